@@ -127,6 +127,7 @@ structure Sampler where
   wrapS : Nat
   wrapT : Nat
   name : String
+  tag : Nat := 0        -- equality class of the sampler's Extras / Extensions (0 = none); `ChildOfRootProperty.equal` compares them
 deriving DecidableEq, Repr, Inhabited
 
 /-- output of a material extension: id, scalar payload, texture references in AddTexture order -/
@@ -424,12 +425,13 @@ def optEq {α} (f : α → α → Bool) : Option α → Option α → Bool
   | some a, some b => f a b
   | _, _ => false
 
-/-- `PolyformTexture.equal` (after commit f524c9b): URI, the texture extensions by value (`reflect.DeepEqual`: the
-    KHR_texture_transform payload and its `Required` flag) and the four sampler enums (not the sampler's name) -/
+/-- `PolyformTexture.equal` (after commits f524c9b and 8f08ae3): URI, the texture extensions by value (`reflect.DeepEqual`:
+    the KHR_texture_transform payload and its `Required` flag) and `Sampler.equal` on the samplers (nil handled inside:
+    the four enums AND name / extras / extensions) -/
 def PTexture.equal (a b : PTexture) : Bool :=
   a.uri == b.uri
   && a.xform == b.xform && (a.xform.isSome && a.xformRequired) == (b.xform.isSome && b.xformRequired)
-  && optEq (fun s t => s.mag == t.mag && s.min == t.min && s.wrapS == t.wrapS && s.wrapT == t.wrapT) a.sampler b.sampler
+  && optEq Sampler.equal a.sampler b.sampler
 
 def texEq (ta tb : Nat → Option PTexture) (a b : Nat) : Bool :=
   a == b || (match ta a, tb b with
